@@ -11,6 +11,7 @@ import (
 
 	"github.com/Jigsaw-Code/outline-ss-server/ipinfo"
 	"github.com/Jigsaw-Code/outline-ss-server/service/metrics"
+	"github.com/Jigsaw-Code/outline-ss-server/verifrt/simnet"
 	"github.com/Jigsaw-Code/outline-ss-server/verifrt/simrt"
 	"github.com/prometheus/client_golang/prometheus"
 	"github.com/prometheus/common/expfmt"
@@ -309,4 +310,127 @@ func postC20(rc *RunCtx, res *simrt.Result) {
 			rc.Failf("database-consulted-for-non-global", "the IP-info database was consulted for non-global address %s", ip)
 		}
 	}
+}
+
+// c20s: the same oracle with client addresses entering through the real
+// service path (accepted connections and datagrams), not through fake conns.
+func init() {
+	Register(&Scenario{Name: "c20s", Prop: "C20", MaxSteps: 200000, Run: runC20s, Post: postC20})
+}
+
+func runC20s(rc *RunCtx) {
+	G := rc.G
+	w := simnet.NewWorld()
+	db := &fakeIPInfo{Answers: map[string]ipinfo.IPInfo{}, Errs: map[string]bool{}}
+	d := &c20data{db: db, dbOn: G.Draw(5) != 0}
+	var prom promMetrics
+	if d.dbOn {
+		prom = newPromMetricsWith(rc, db)
+	} else {
+		prom = newPromMetricsWith(rc, nil)
+	}
+	d.prom = prom
+	rc.PostData = d
+	keys := genKeys(G, 1+G.Draw(3), "")
+	m := &RecMetrics{Inner: prom}
+	tsrv := startTCPServer(rc, w, tcpServerOpts{Keys: keys, Timeout: time.Second, Metrics: m})
+	usrv := startUDPServer(rc, w, udpServerOpts{Keys: keys, Timeout: time.Minute, Metrics: m})
+	tgtIP := net.IPv4(93, 184, 216, 34).To4()
+	startTarget(w, tgtIP, 7000, func(tc *targetConn) {
+		buf := make([]byte, 4096)
+		for {
+			n, err := tc.C.Read(buf)
+			if n > 0 {
+				tc.C.Write(buf[:n])
+			}
+			if err != nil {
+				break
+			}
+		}
+		tc.C.Close()
+	})
+	pool := []string{"8.8.4.4", "2606:4700:4700::1001", "::ffff:151.101.65.69", "10.11.12.13", "fe80::1234:5678%eth0", "100.64.3.3", "192.168.77.88", "2a00:1450:4001:81b::200e"}
+	nC := 1 + G.Draw(5)
+	used := map[string]bool{}
+	for i := 0; i < nC; i++ {
+		ipt := pool[G.Draw(len(pool))]
+		if used[ipt] {
+			continue
+		}
+		used[ipt] = true
+		a := netip.MustParseAddr(ipt)
+		ip := net.IP(a.AsSlice())
+		if a.Is4() {
+			ip = ip.To4()
+		}
+		c := &c20client{port: fmt.Sprint(52000 + 11*i + G.Draw(7)), parsable: true, forms: ipForms(a), global: ip.IsGlobalUnicast()}
+		var pn int
+		fmt.Sscan(c.port, &pn)
+		c.addr = &net.TCPAddr{IP: ip, Port: pn, Zone: a.Zone()}
+		c.text = c.addr.String()
+		switch {
+		case !d.dbOn:
+			c.want = []string{""}
+			if a.Zone() != "" {
+				c.want = []string{"", "XA"}
+			}
+		case a.Zone() != "":
+			c.want = []string{"XA", "XL"}
+		case !c.global:
+			c.want = []string{"XL"}
+		default:
+			key := ip.String()
+			switch G.Draw(3) {
+			case 0:
+				db.Errs[key] = true
+				c.want = []string{"XD"}
+			case 1:
+				c.want = []string{"ZZ"}
+			default:
+				cc := fmt.Sprintf("R%c", 'A'+i)
+				db.Answers[key] = ipinfo.IPInfo{CountryCode: ipinfo.CountryCode(cc), ASN: ipinfo.ASN{Number: 64600 + i, Organization: fmt.Sprintf("Net %d", i)}}
+				c.want, c.wantASN, c.wantOrg = []string{cc}, fmt.Sprint(64600+i), fmt.Sprintf("Net %d", i)
+			}
+		}
+		d.clients = append(d.clients, c)
+		rc.D("client %s want %v", c.text, c.want)
+		key := keys[G.Draw(len(keys))]
+		nConn := 1 + G.Draw(2)
+		doUDP := G.Draw(2) == 0
+		simrt.GoNamed(fmt.Sprintf("c20s-client-%d", i), func() {
+			ta := c.addr.(*net.TCPAddr)
+			for k := 0; k < nConn; k++ {
+				cc, err := tsrv.W.Connect(&net.TCPAddr{IP: ta.IP, Port: ta.Port + k*1000, Zone: ta.Zone}, tsrv.IP, tsrv.Port)
+				if err != nil {
+					continue
+				}
+				c.nOpen++
+				if G.Draw(3) == 0 {
+					cc.Write(payload(G, 60)) // a probe
+				} else {
+					enc := newEncoder(key)
+					enc.Lazy(socksAddr(fmt.Sprintf("%s:7000", tgtIP)))
+					cc.Write(enc.Chunk([]byte("hello")))
+					simrt.Sleep(time.Duration(1+G.Draw(3)) * time.Second)
+				}
+				cc.CloseWrite()
+				readAll(cc)
+				cc.Close()
+			}
+			if doUDP {
+				us, err := w.BindUDP(&net.UDPAddr{IP: ta.IP, Port: ta.Port + 5, Zone: ta.Zone})
+				if err == nil {
+					plain := append(socksAddr(fmt.Sprintf("%s:7001", tgtIP)), []byte("x")...)
+					us.WriteToUDP(packUDP(key, plain), &net.UDPAddr{IP: proxyIP, Port: 9000})
+					simrt.Sleep(time.Second)
+					us.Close()
+				}
+			}
+		})
+	}
+	simrt.Quiesce()
+	tsrv.Stop()
+	usrv.Stop()
+	simrt.Quiesce()
+	rc.Nontrivial = true
 }
